@@ -56,7 +56,10 @@ let run_crc infile outfile =
       match split_ws l with
       | ["CRC"; prev; data] ->
         let d = if data = "-" then [] else bytes_of_string (unhex data) in
-        Printf.fprintf oc "crc %s\n" (hexnum_of_n (crc_update (n_of_hexnum prev) d))
+        (* the bitwise definition and the table-driven one the models run must both equal Go's *)
+        let a = crc_update (n_of_hexnum prev) d and b = crc_update_tab (n_of_hexnum prev) d in
+        if a = b then Printf.fprintf oc "crc %s\n" (hexnum_of_n a)
+        else Printf.fprintf oc "crc bitwise=%s table=%s\n" (hexnum_of_n a) (hexnum_of_n b)
       | _ -> ()) (read_lines infile);
   close_out oc
 
